@@ -509,7 +509,10 @@ def do_event(w, ev):
         w.tables[ev[1]] = t
         return "ok"
     if kind == "assign":
-        setattr(w.obj(ev[2], ev[3]), ev[1], ev[4] if len(ev) > 4 else "<assigned>")
+        # every assignment gets its own copy of the value: the generator hands the same dict object to every event,
+        # and two tables holding it would look like a shared mutable object (a false alarm met at seed 2)
+        import copy
+        setattr(w.obj(ev[2], ev[3]), ev[1], copy.deepcopy(ev[4]) if len(ev) > 4 else "<assigned>")
         return "ok"
     if kind == "mutate":
         return mutate(w.obj(ev[2], ev[3]), ev[1])
